@@ -270,6 +270,22 @@ def generate_config(check):
                 check.violation("-g overwrote an existing configuration file", case={"options": chosen},
                                 impl={"rc": r2["rc"]}, failing_input=True)
                 return
+            # whatever the existing file holds (nothing at all, blanks, a comment, another configuration, not even TOML) and however
+            # the target is named (-c, or the default ./typeshare.toml), -g refuses and leaves it as it is
+            for content in ["", "\n", "# keep me\n", "[swift]\nprefix = \"Pinned\"\n", "not toml at all ]]\n"]:
+                for explicit in (True, False):
+                    target = sc.path("ws/pre/typeshare.toml")
+                    sc.write("ws/pre/typeshare.toml", content)
+                    before = snapshot(sc.path("ws"))
+                    r3 = run_cli(["-g"] + (["-c", target] if explicit else []) + ["--swift-prefix", "Other", sc.path("ws/proj/src")],
+                                 cwd=sc.path("ws/pre"))
+                    check.saw(("generate-config-existing", content, explicit, i), nontrivial=True)
+                    check.count("generate-config-existing-%s" % ("empty" if not content else "nonempty"))
+                    if r3["rc"] == 0 or snapshot(sc.path("ws")) != before:
+                        check.violation("-g wrote into an existing configuration file (%d bytes: %r, named %s)"
+                                        % (len(content), content, "by -c" if explicit else "by default"), case={"existing_content": content, "explicit": explicit},
+                                        impl={"rc": r3["rc"], "now": open(target).read()}, failing_input=True)
+                        return
             # reload: same generated code as with the options themselves
             for L in ("swift", "kotlin"):
                 a = run_cli(["--lang", L, "-o", sc.path("a." + EXT[L])] + args + [sc.path("ws/proj/src")], cwd=sc.path("ws/proj"))
